@@ -532,9 +532,11 @@ func c18OneResponse(c *Ctx, p *core.Prog, fn *ssa.Function, senders map[*ssa.Fun
 					}
 				}
 				for si, sb := range b.Succs {
+					// the id does not change while the message is dispatched: a later test cannot contradict an earlier one
+					if (sawNonNil && si != nonNilSucc) || (sawNil && si == nonNilSucc) {
+						continue
+					}
 					t2 := append(append([]string{}, trail...), p.Pos(iff.Cond.Pos()))
-					// with a conjunction (err == nil && id != nil) the false side says nothing certain about the id,
-					// but then the message was either undecodable or a notification: treat as nil
 					dfs(sb, n, sawNil || si != nonNilSucc, sawNonNil || si == nonNilSucc, t2)
 				}
 				return
